@@ -53,3 +53,6 @@ reg("C20", "exploration", "runtime monitor: metamorphic invariant format(format(
 reg("C21", "exploration", "runtime monitor: conservation invariant on comment texts (exactly once, same order) with uniquely numbered comments injected at random token boundaries; failing cases are shrunk to the minimal set of injected comments and named after the node kind that contains them",
     "Unique comment ids make 'exactly once, in order' decidable from the scanner's comment token sequence of input and output.",
     "Comment texts are normalised by right-trimming lines and dropping block-comment re-indentation; injection that makes the source invalid is discarded.")
+reg("C17", "exploration", "runtime monitor: structural span invariants (token-aligned Pos/End, child-inside-parent, ordered non-overlapping siblings) checked by an independent reflection walker against the scanner's token table, plus ParseExpr(source slice) shape-equality for context-free expression kinds; rules that go/ast itself breaks are calibrated on go/parser trees and frozen",
+    "Every node of every error-free parse of the run is checked; the two inherited go/ast conventions found by calibration are listed in the evidence.",
+    "Nodes inside interpolated strings and domain-text arguments live inside one scanner token and are only checked for containment; synthetic nodes are skipped.")
